@@ -46,7 +46,33 @@ def fill(claim, na):
         "defaults satisfy l0<u0, l0<=v0<=u0. Not decided: float() conversion errors, NaN arguments.",
         "DESIGN.md section 4, C14",
     )
-    for pid in ("C01", "C03", "C05", "C06", "C07", "C08", "C09", "C11", "C12", "C13", "C15", "C16",
+    claim(
+        "C03", "other",
+        "writer/reader table agreement, stack typestate (frame locality, orientation), order-domain enumeration of the parser's limit transfer",
+        "Partial claim. Decides: every punctuation character, keyword and number-format letter the emitters write has a "
+        "consumer in the tokenizer/parser tables; field order agrees; popping loops of the shift/reduce parser are "
+        "frame-local (only Parser.process drains) and hand forward-oriented lists to Series/Parallel; the parser's "
+        "value/limit transfer (read from source) succeeds in every ordering with l<=v<=u, l<u, for both/only-lower/only-upper "
+        "limits; label alphabet of set_label vs tokenizer. Deep-copy identity goes through C14 R14.3. Does NOT decide "
+        "numeric round-trip to printed precision nor full equivalence of all spellings.",
+        "Trusted: recognisers for the emitter's string pieces and for the popping-loop idioms (unrecognised idiom = exit 2). "
+        "Two known findings (labels not starting with a letter; unbalanced braces in labels).",
+        "DESIGN.md section 4, C03",
+    )
+    claim(
+        "C05", "other",
+        "effect analysis of caller-owned arguments, optional-key contradiction rule, permutation model of the reversal, writer/reader key tables, who-may-write",
+        "Structural clauses: public DataSet API does not mutate caller-owned arguments (flow-sensitive freshness analysis, "
+        "inter-procedural through _parse/_parse_v1/from_dict); a key read as optional is never subscripted/deleted "
+        "unguarded; under reversal of ascending input frequencies, impedances and mask keys undergo the same single "
+        "reversal (swap loops are model-checked as permutations for n=1..12, comprehensions matched symbolically); filter "
+        "index spaces; sibling getters share one partition predicate; to_dict/_parse/__init__ key tables agree; only "
+        "__init__/set_mask/subtract_impedances write the parallel state.",
+        "Not decided: non-monotonic input frequencies, average()'s tolerance, JSON float round-trip. Unrecognised "
+        "re-indexing idiom = exit 2.",
+        "DESIGN.md section 4, C05",
+    )
+    for pid in ("C01", "C06", "C07", "C08", "C09", "C11", "C12", "C13", "C15", "C16",
                 "C17", "C18", "C19", "C20"):
         na(pid, NOT_YET)
     na("C10", "statistical behaviour of a heuristic pipeline (noise tracking, drift margin) on noisy inputs: quantifies over "
